@@ -21,6 +21,12 @@ class _Frame:
         self.name = name
 
 
+class _Positional(Unsupported):
+    def __init__(self, attr, node):
+        Unsupported.__init__(self, 'positional access imu.%s' % attr)
+        self.attr, self.node = attr, node
+
+
 class _Cols:
     def __init__(self, cols):
         self.cols = cols
@@ -46,6 +52,10 @@ class _Hooks:
         if isinstance(base, _Frame):
             if a == 'index':
                 return Opaque('imu.index')
+            if a in ('values', 'to_numpy', 'iloc', 'T'):
+                # the whole table as an array / by position: the Imu schema is BY NAME (a frame
+                # read from a file in another column order is a legal input)
+                raise _Positional(a, node)
         if isinstance(base, _Cols):
             if a == 'values':
                 return base
@@ -102,6 +112,18 @@ def _run(ctx, mode, alg):
     ev.hooks = h
     try:
         ev.call_function(f, [_Frame('imu'), mode])
+    except _Positional as e:
+        if not ctx.cache.get('cs-positional'):
+            ctx.cache['cs-positional'] = True
+            ctx.rule('CS-BYNAME', 'gyro and accelerometer readings are selected from the Imu table by '
+                     'column name, never by position')
+            ctx.ob('CS-BYNAME', False, None, 'readings selected by name', f=f, node=e.node,
+                   key='positional-' + e.attr,
+                   why='compute_increments_from_imu takes the readings from `imu.%s` (the whole '
+                       'table by position): with the six named columns in any other order than '
+                       'gyro_x..z, accel_x..z the increments are silently computed from the wrong '
+                       'signals' % e.attr)
+        raise AnalysisError('compute_increments_from_imu (%s) not analysable: %s' % (mode, e))
     except Unsupported as e:
         raise AnalysisError('compute_increments_from_imu (%s) not analysable: %s' % (mode, e))
     ctx.need(h.ret is not None, 'compute_increments_from_imu does not build a DataFrame')
